@@ -198,6 +198,11 @@ def _hook_body(lname, hook, faults):
             sys.stdout = io.StringIO()
         elif hook == 'tearDown' and lname in _SWAPPED:
             sys.stdout = _SWAPPED.pop(lname)
+    if extra.get('unpath') and hook == 'setUp':
+        # a layer that cleans sys.path of the directories the run added
+        for x in list(sys.path):
+            if '/vt-c18-' in x:
+                sys.path.remove(x)
     if extra.get('lh') and hook == 'setUp':
         # per-test hooks that only exist once the layer has been set up
         obj = extra['_obj']
@@ -254,7 +259,7 @@ def make_layers(spec_layers, modname):
             for hk in declared:
                 setattr(o, hk, functools.partial(_hook_body, L['n'], hk, faults))
             objs[L['n']] = o
-        if L.get('sw') or L.get('lh'):
+        if L.get('sw') or L.get('lh') or L.get('unpath'):
             _LAYER_EXTRA[L['n']] = dict(L, _obj=objs[L['n']])
     return objs
 
